@@ -2,8 +2,12 @@
 
 Oracle (harness/faultinj.c, white-box link of the `asan` flavour with --wrap of malloc/calloc/realloc/posix_memalign/
 pthread_create/sem_init/pthread_mutex_init): run 0 numbers every allocation / OS-object creation the API-calling thread
-performs inside init_handle, set_parameter, init (decoder: + the first svt_av1_dec_frame with threads=2) and records the
-call stack of each. Run k fails exactly the k-th one in a forked child. Then
+performs inside init_handle, set_parameter, init (decoder: + the first svt_av1_dec_frame) and records the call stack of
+each; the numbering is verified to be deterministic by running run 0 twice (multi-threaded decode: only up to the last
+thread creation, after which the API thread shares work with the workers).  Run k fails exactly the k-th one in a forked
+child (harness/faultinj.c forks it off an unfaulted "trunk" session right before event k while the process is still
+single-threaded, otherwise replays the session from the start).  Reports, leaks and live counters the UNFAULTED session
+already shows (other properties' findings) are subtracted.  Then
   * the API call in which the failure was injected returns != EB_ErrorNone,
   * teardown as the sample application does it (handle exists -> deinit + deinit_handle) returns,
   * no AddressSanitizer report, no signal, no dead-lock,
@@ -24,7 +28,7 @@ import re
 import subprocess
 import sys
 
-from .. import build, core, enc, sanlog
+from .. import build, core, sanlog
 
 LEVEL = "fault_enumeration"
 
@@ -156,7 +160,6 @@ def run_sites(which, prefix, opts):
         raise core.HarnessError("faultinj %s run 0 failed: rc=%s timeout=%s progress=%r stderr=%s"
                                 % (which, r.rc, r.timed_out, info.get("progress"), r.err[-600:]))
     rows = []
-    lo, hi = None, None
     for ln in open(prefix + ".sites"):
         f = ln.split()
         if len(f) < 4:
@@ -199,7 +202,6 @@ def run_sites(which, prefix, opts):
         e.site_fn = site or "?"
         # call site = address of the first non-generic frame (+ kind: one line can hold several primitives)
         sa = None
-        j = 0
         for a in chain:
             names = [n for n in sym.get(a, ["??"]) if not n.startswith("__wrap_")]
             if not all(n in GENERIC for n in names):
@@ -281,10 +283,10 @@ def plan(events, tier, rng, scale=1.0, which="enc"):
             ks.update(e.k for e in events if e.phase == 1)  # every k of set_parameter
             rest = [e.k for e in events if e.k not in ks]
             rng.shuffle(rest)
-            ks.update(rest[:int(1500 * scale)])
+            ks.update(rest[:int(800 * scale)])
         else:
             ks.update(e.k for e in events)  # the decoder's count is small: all k
-        d["rule"] = ("every distinct call chain x {first, middle, last}; encoder: + every k of set_parameter + 1500 "
+        d["rule"] = ("every distinct call chain x {first, middle, last}; encoder: + every k of set_parameter + 800 "
                      "seeded random k; decoder: every k")
     else:  # campaign: caller decides
         for key, lst in by_chain.items():
@@ -588,9 +590,6 @@ def run(chk, tier, replay=None):
 
 
 # ------------------------------------------------------------------ campaign (run once, by hand)
-ROOT_CAUSES = []  # filled by root_causes() below
-
-
 def root_cause_of(key):
     for rx, text in root_causes():
         if re.search(rx, key):
